@@ -30,7 +30,7 @@ def stepFs (cmd : String) (args : List String) : String :=
           -- a removed bitmap is not an undecodable one (preloading skips it, on-demand reads treat it as empty);
           -- garbage, a zero-length value and a truncated value are undecodable
           match sb, ic with
-          | some sb, some ic => some (.bolt (bucket == "true") sb ic (v == "good" || v == "missing"))
+          | some sb, some ic => some (.bolt (bucket == "true") sb ic (v == "good" || v == "missing" || v == "emptyroaring"))
           | _, _ => none
         | _ => none
       match fs with
